@@ -223,6 +223,29 @@ def patient_entity_remove(which):
     return ev
 
 
+def update_context_descr_add_state(interface):
+    """One descriptor transaction that updates the patient context descriptor AND adds a new context state for it."""
+    def ev(p):
+        _need(p, PAT)
+        sc = _pm().SafetyClassification
+        if interface == 'classic':
+            with p.mdib.descriptor_transaction() as tr:
+                d = tr.get_descriptor(PAT)
+                d.SafetyClassification = sc.MED_B if d.SafetyClassification != sc.MED_B else sc.MED_C
+                st = p.mdib.data_model.mk_state_container(d)
+                st.Handle = f'ctx.added.{p.mdib.mdib_version}'
+                st.CoreData.Givenname = 'added'
+                tr.add_state(st)
+        else:
+            ent = p.mdib.entities.by_handle(PAT)
+            ent.descriptor.SafetyClassification = sc.MED_A if ent.descriptor.SafetyClassification != sc.MED_A else sc.MED_C
+            st = ent.new_state()
+            st.CoreData.Givenname = 'added-entity'
+            with p.mdib.descriptor_transaction() as tr:
+                tr.write_entity(ent)
+    return ev
+
+
 def location_extra(assoc):
     """An additional, not associated location context state (legal: e.g. a pre-associated next location)."""
     def ev(p):
@@ -495,6 +518,8 @@ EVENTS = [
     ('patient-entity-remove(first-two)', patient_entity_remove('first-two')),
     ('patient-entity-remove(all-but-last)', patient_entity_remove('all-but-last')),
     ('patient-entity-remove(all)', patient_entity_remove('all')),
+    ('update-context-descr+new-state', update_context_descr_add_state('classic')),
+    ('update-context-descr+new-state-entity', update_context_descr_add_state('entity')),
     ('patient-update-first(X)', patient_update_first('X')),
     ('patient-update-all', patient_update_all),
     ('patient-disassociate', patient_disassociate),
